@@ -659,8 +659,21 @@ func c12HistSweep(levels int, emit func(C12Case)) {
 			}{"without " + r.label + " -> full", r.t, full})
 		}
 		for _, p := range pairs {
-			for _, pre := range c12SweepPrefixes {
-				for _, order := range []string{"vt-first", "proto-first"} {
+			for pi, pre := range c12SweepPrefixes {
+				orders := []string{"vt-first", "proto-first"}
+				if !ev.Thorough() {
+					// quick tier: after a prefix that used one encoder only, the oracle lets the
+					// other codec touch the object first; fewer prefixes
+					switch {
+					case pi >= 8 || pi == 6:
+						continue
+					case pi <= 1:
+						orders = orders[:1]
+					case pi <= 3:
+						orders = orders[1:]
+					}
+				}
+				for _, order := range orders {
 					c := C12Case{Type: tn, Origin: fmt.Sprintf("sweep:hist %s %v; %s; %s", sn, pre, p.label, order), Msg: *p.from, Order: order}
 					for _, op := range pre {
 						c.Hist = append(c.Hist, C12Step{Op: op})
